@@ -295,6 +295,8 @@ def run_case(inp):
             if inp["touch"]: _ = ds.grids.uniform      # the cached grids exist before the trim
             ds2 = ds.trimmed_after_convolution_from(kernel_shape=tuple(inp["k"]))
             grid = np.array(ds2.grids.uniform).reshape(-1, 2)
+            # the grid lives on the frame of the trimmed data (not on a cached copy of the padded frame)
+            if tuple(ds2.grids.uniform.mask.shape_native) != tuple(ds2.data.shape_native): geom_bad.append(1)
             return [bout(np.array(ds2.mask)), zout(np.array(ds2.data.native)), zout(np.array(ds2.noise_map.native)),
                     [[fr(p[0]), fr(p[1])] for p in grid]]
         out = call_res(f)
